@@ -325,6 +325,8 @@ pub fn run_monitor(mon: &Monitor, cfg: &RunCfg) -> Outcome {
             return Outcome { exit_code: 2 };
         }
     };
+    crate::alloc::RUN_SEED.store(cfg.seed, Ordering::Relaxed);
+    crate::alloc::RUN_THOROUGH.store(cfg.tier == Tier::Thorough, Ordering::Relaxed);
     let sched = Schedule::new(&mon.families);
     let total_jobs = sched.total_jobs();
     let shared = Arc::new(Shared {
@@ -350,6 +352,7 @@ pub fn run_monitor(mon: &Monitor, cfg: &RunCfg) -> Outcome {
             let fams = &mon.families;
             let tier = cfg.tier;
             let seed = cfg.seed;
+            let prop_id = mon.id;
             let h = std::thread::Builder::new()
                 .stack_size(64 << 20)
                 .spawn_scoped(scope, move || {
@@ -379,6 +382,7 @@ pub fn run_monitor(mon: &Monitor, cfg: &RunCfg) -> Outcome {
                             verbose: false,
                         };
                         *current[t].lock().unwrap() = format!("{}#{}", fam.name, idx);
+                        crate::alloc::CURRENT_CASE.with(|c| c.set((prop_id, fam.name, idx)));
                         stamps[t].store(start.elapsed().as_millis() as u64 + 1, Ordering::Relaxed);
                         let out = match crate::sut::guarded(|| (fam.run)(&ctx, &mut local.cov)) {
                             Ok(o) => o,
